@@ -2,4 +2,5 @@ SPECIFICATION Spec
 CONSTANTS Tier = "thorough"
 INVARIANT CertificatesConsistent
 INVARIANT NonVacuous
+INVARIANT BackCertified
 CHECK_DEADLOCK FALSE
